@@ -190,6 +190,13 @@ func c12Streams() []c12Stream {
 	add("short-length", cat([]byte("8=FIX.4.2\x019=2\x0135=0\x0149=A\x0110=000\x01"), tr))
 	add("truncated-tail", cat(hb, tr[:len(tr)-5]))
 	add("truncated-in-length", cat(hb, []byte("8=FIX.4.2\x019=1")))
+	// the stream ends inside a message body, after its BodyLength has been read (what is missing would still fit
+	// the buffer / would not)
+	add("truncated-in-body", cat(hb, tr[:len(tr)-14]))
+	add("truncated-after-length", cat(hb, []byte("8=FIX.4.2\x019=50\x0135=0\x0149=A")))
+	add("truncated-in-body-first", tr[:len(tr)-20])
+	add("truncated-in-big-body", cat(hb, big(3000)[:1500]))
+	add("truncated-in-bigger-body", cat(hb, big(6000)[:4500]))
 	add("only-garbage", []byte("hello world 9=12 10=3"))
 	add("empty", []byte{})
 	add("nested-begin", cat([]byte("8=FIX8=FIX.4.2\x01"), hb, tr))
